@@ -61,45 +61,49 @@ pub fn register(l: &mut Vec<Obl>) {
 /// univariate algebraic function of the saturation that z3 decides for all s in [0, 1].
 fn ok_grid(l: &mut Vec<Obl>) {
     use palette::{Hsluv, LinSrgb, Okhsl, Okhsv, Okhwb};
+    // in linear light: -4e-4 is -0.005 after sRGB encoding (slope 12.92), 1 + 2e-3 is 1.0009
     const TOL: f64 = 2e-3;
-    let hues = [0.0, 29.0, 60.0, 111.25, 142.0, 180.0, 200.0, 264.0, 300.0, 330.0];
+    const TOL_LO: f64 = 4e-4;
+    // regular hues, and hues 0.3 degrees on either side of the three sRGB primaries (29.23, 142.50, 264.05 deg in Oklab), where
+    // the cusp search switches between its polynomial sectors
+    let hues = [0.0, 28.93, 29.53, 60.0, 111.25, 142.2, 142.8, 180.0, 200.0, 263.75, 264.35, 300.0, 330.0];
     for h in hues {
         for x in [0.05, 0.2, 0.4, 0.6, 0.8, 0.95] {
             let key = format!("h{}_x{}", h, x).replace('.', "_");
             oblf!(l; format!("c15_okhsl_into_gamut_{}", key), "C15", Tier::Quick,
-                format!("Okhsl at hue {} deg, lightness {} (configuration) and EVERY saturation in [0,1] converts to linear sRGB components in [0,1] up to {}", h, x, TOL),
+                format!("Okhsl at hue {} deg, lightness {} (configuration) and EVERY saturation in [0,1] converts to linear sRGB components in [-4e-4, 1 + {}]", h, x, TOL),
                 ["<Oklab as FromColorUnclamped<Okhsl>>", "<Rgb as FromColorUnclamped<Oklab>>", "ok_utils::LC::find_cusp", "ok_utils::ChromaValues", "ok_utils::toe_inv"],
                 [var("s", 0.0, 1.0)];
                 |v| {
                     let mut r = Res::<B>::new();
                     let c: LinSrgb<T> = LinSrgb::from_color_unclamped(Okhsl::<T>::new(T::k(h), v[0], T::k(x)));
-                    r.goal("red", c.red.within_tol(0.0, 1.0, TOL));
-                    r.goal("green", c.green.within_tol(0.0, 1.0, TOL));
-                    r.goal("blue", c.blue.within_tol(0.0, 1.0, TOL));
+                    r.goal("red", (c.red.within_tol(-1.0, 1.0, TOL) & c.red.within_tol(0.0, 2.0, TOL_LO)));
+                    r.goal("green", (c.green.within_tol(-1.0, 1.0, TOL) & c.green.within_tol(0.0, 2.0, TOL_LO)));
+                    r.goal("blue", (c.blue.within_tol(-1.0, 1.0, TOL) & c.blue.within_tol(0.0, 2.0, TOL_LO)));
                     r
                 });
             oblf!(l; format!("c15_okhsv_into_gamut_{}", key), "C15", Tier::Open,
-                format!("Okhsv at hue {} deg, value {} (configuration) and EVERY saturation in [0,1] converts to linear sRGB components in [0,1] up to {}", h, x, TOL),
+                format!("Okhsv at hue {} deg, value {} (configuration) and EVERY saturation in [0,1] converts to linear sRGB components in [-4e-4, 1 + {}]", h, x, TOL),
                 ["<Oklab as FromColorUnclamped<Okhsv>>", "<Rgb as FromColorUnclamped<Oklab>>", "ok_utils::LC::find_cusp", "ok_utils::ST", "ok_utils::toe_inv"],
                 [var("s", 0.0, 1.0)];
                 |v| {
                     let mut r = Res::<B>::new();
                     let c: LinSrgb<T> = LinSrgb::from_color_unclamped(Okhsv::<T>::new(T::k(h), v[0], T::k(x)));
-                    r.goal("red", c.red.within_tol(0.0, 1.0, TOL));
-                    r.goal("green", c.green.within_tol(0.0, 1.0, TOL));
-                    r.goal("blue", c.blue.within_tol(0.0, 1.0, TOL));
+                    r.goal("red", (c.red.within_tol(-1.0, 1.0, TOL) & c.red.within_tol(0.0, 2.0, TOL_LO)));
+                    r.goal("green", (c.green.within_tol(-1.0, 1.0, TOL) & c.green.within_tol(0.0, 2.0, TOL_LO)));
+                    r.goal("blue", (c.blue.within_tol(-1.0, 1.0, TOL) & c.blue.within_tol(0.0, 2.0, TOL_LO)));
                     r
                 });
             oblf!(l; format!("c15_hsluv_into_gamut_{}", key), "C15", Tier::Quick,
-                format!("HSLuv at hue {} deg, lightness {} (configuration) and EVERY saturation in [0,100] converts to linear sRGB components in [0,1] up to {}", h, x * 100.0, TOL),
+                format!("HSLuv at hue {} deg, lightness {} (configuration) and EVERY saturation in [0,100] converts to linear sRGB components in [-4e-4, 1 + {}]", h, x * 100.0, TOL),
                 ["<Lchuv as FromColorUnclamped<Hsluv>>", "luv_bounds::LuvBounds::max_chroma_at_hue", "<Xyz as FromColorUnclamped<Luv>>", "<Rgb as FromColorUnclamped<Xyz>>"],
                 [var("s", 0.0, 100.0)];
                 |v| {
                     let mut r = Res::<B>::new();
                     let c: LinSrgb<T> = LinSrgb::from_color_unclamped(Hsluv::<palette::white_point::D65, T>::new(T::k(h), v[0], T::k(x * 100.0)));
-                    r.goal("red", c.red.within_tol(0.0, 1.0, TOL));
-                    r.goal("green", c.green.within_tol(0.0, 1.0, TOL));
-                    r.goal("blue", c.blue.within_tol(0.0, 1.0, TOL));
+                    r.goal("red", (c.red.within_tol(-1.0, 1.0, TOL) & c.red.within_tol(0.0, 2.0, TOL_LO)));
+                    r.goal("green", (c.green.within_tol(-1.0, 1.0, TOL) & c.green.within_tol(0.0, 2.0, TOL_LO)));
+                    r.goal("blue", (c.blue.within_tol(-1.0, 1.0, TOL) & c.blue.within_tol(0.0, 2.0, TOL_LO)));
                     r
                 });
         }
@@ -108,16 +112,16 @@ fn ok_grid(l: &mut Vec<Obl>) {
         for w in [0.0, 0.3, 0.7] {
             let key = format!("h{}_w{}", h, w).replace('.', "_");
             oblf!(l; format!("c15_okhwb_into_gamut_{}", key), "C15", Tier::Open,
-                format!("Okhwb at hue {} deg, whiteness {} (configuration) and EVERY blackness in [0, 1 - whiteness] converts to linear sRGB components in [0,1] up to {}", h, w, TOL),
+                format!("Okhwb at hue {} deg, whiteness {} (configuration) and EVERY blackness in [0, 1 - whiteness] converts to linear sRGB components in [-4e-4, 1 + {}]", h, w, TOL),
                 ["<Okhsv as FromColorUnclamped<Okhwb>>", "<Oklab as FromColorUnclamped<Okhsv>>", "<Rgb as FromColorUnclamped<Oklab>>"],
                 [var("b", 0.0, 1.0)];
                 |v| {
                     let mut r = Res::<B>::new();
                     r.assume(v[0].le(T::k(1.0 - w)));
                     let c: LinSrgb<T> = LinSrgb::from_color_unclamped(Okhwb::<T>::new(T::k(h), T::k(w), v[0]));
-                    r.goal("red", c.red.within_tol(0.0, 1.0, TOL));
-                    r.goal("green", c.green.within_tol(0.0, 1.0, TOL));
-                    r.goal("blue", c.blue.within_tol(0.0, 1.0, TOL));
+                    r.goal("red", (c.red.within_tol(-1.0, 1.0, TOL) & c.red.within_tol(0.0, 2.0, TOL_LO)));
+                    r.goal("green", (c.green.within_tol(-1.0, 1.0, TOL) & c.green.within_tol(0.0, 2.0, TOL_LO)));
+                    r.goal("blue", (c.blue.within_tol(-1.0, 1.0, TOL) & c.blue.within_tol(0.0, 2.0, TOL_LO)));
                     r
                 });
         }
